@@ -30,7 +30,8 @@ func (g *gen) scalar() any {
 	case 7:
 		return common.Pick(r, []float64{0.5, 1.5, -2.5, 1e3, 3})
 	case 8:
-		z, _ := new(big.Int).SetString("123456789012345678901234567890", 10)
+		// *big.Int values are mutable Go objects too (math/big methods write their receiver)
+		z, _ := new(big.Int).SetString(common.Pick(r, []string{"123456789012345678901234567890", "-123456789012345678901234567890", "-9223372036854775809", "9223372036854775808", "-100000000000000000000000"}), 10)
 		if r.Bool() {
 			return z
 		}
@@ -46,6 +47,9 @@ func (g *gen) nums() []any {
 	for i := range xs {
 		if g.r.Chance(1, 8) {
 			xs[i] = common.Pick(g.r, []float64{0.5, 1.5, -2.5})
+		} else if g.r.Chance(1, 8) {
+			z, _ := new(big.Int).SetString(common.Pick(g.r, []string{"-123456789012345678901234567890", "36893488147419103232", "-9223372036854775809", "-18446744073709551616"}), 10)
+			xs[i] = z
 		} else {
 			xs[i] = g.r.Range(-2, 6)
 		}
